@@ -14,7 +14,7 @@ def main():
     hook_commits = [c.split()[0] for c in commits if " verif-hooks:" in c or c.split(" ", 1)[1].startswith("verif-hooks")]
     checks = []
     for pid in sorted(P.PROPS):
-        t = T.TEXT[pid]
+        t = P.TEXT[pid]
         checks.append(dict(
             property_id=pid,
             quick_cmd=f"./check {pid} --tier quick",
@@ -33,7 +33,7 @@ def main():
         hooks=dict(guard="anydb_verif", enable="RUSTFLAGS='--cfg anydb_verif' (set in /verif/harness/.cargo/config.toml; the harness depends on /repo/crates/{rawdb,vecdb} by path)",
                    baseline_off_cmd="cd /repo && cargo nextest run --workspace --no-fail-fast --test-threads 8 --offline || (cd /repo && cargo test --workspace --no-fail-fast --offline)",
                    source_commits=hook_commits, add_only=True),
-        engines=T.ENGINES,
+        engines=P.ENGINES,
         checks=checks,
         notes=T.NOTES,
         not_applicable=na,
